@@ -75,6 +75,7 @@ type Exec struct {
 	immutKept     bool
 	nimm          int
 	beforeSeen    map[string]bool
+	siteOrd       map[string][]token.Pos
 	overflow      bool      // contract option: machine-integer overflow of + - * is an obligation
 	curPos        token.Pos // position of the instruction being executed (for safety obligations)
 	acqSnap       map[string]*State
@@ -279,6 +280,9 @@ func (ex *Exec) loopModified(li *loopInfo) *modSet {
 			case *ssa.MapUpdate:
 				ex.mapHeapMods(in.Map.Type(), ms)
 			case *ssa.Send, *ssa.Select:
+				if _, isSel := in.(*ssa.Select); isSel {
+					ms.ghosts = append(ms.ghosts, "sel:idx", "sel:ok")
+				}
 				if ex.con != nil && ex.con.ChanEvents {
 					for _, g := range []string{"sends", "recvs", "dones", "timeouts", "drained"} {
 						ms.heaps["G_ghost."+g] = SInt
@@ -778,6 +782,7 @@ func (ex *Exec) run() {
 	ex.pkgHavocked = map[string]bool{}
 	ex.obsSeen = map[string]bool{}
 	ex.beforeSeen = map[string]bool{}
+	ex.siteOrd = nil
 	ex.wholeWrites = map[string]bool{}
 	ex.globalWrites = map[string]bool{}
 	ex.nsafe = map[string]int{}
@@ -813,6 +818,10 @@ func (ex *Exec) run() {
 			vc.assume(TTrue, Gt(ex.regs[fn.Params[0]], IntLit(0)))
 		}
 	}
+	// $selected / $recvok: the case the latest select took (in source order, -1 for default, -2 before any select) and
+	// whether its receive delivered a value (false when the channel was closed)
+	st.ghost["sel:idx"] = IntLit(-2)
+	st.ghost["sel:ok"] = TFalse
 	if ex.con != nil {
 		for _, v := range ex.con.Counts {
 			st.ghost["cnt:"+v] = IntLit(0)
